@@ -84,7 +84,7 @@ func findSolve(c *Ctx, r *R) *solveAnchors {
 // callsAppends returns the `calls = append(calls, …)` assignment statements.
 func (a *solveAnchors) appendsTo(v *types.Var) []*ast.AssignStmt {
 	var out []*ast.AssignStmt
-	ast.Inspect(a.fi.Decl.Body, func(n ast.Node) bool {
+	a.fi.inspect(a.fi.Decl.Body, func(n ast.Node) bool {
 		as, ok := n.(*ast.AssignStmt)
 		if !ok || len(as.Lhs) != 1 || len(as.Rhs) != 1 || a.fi.varOf(as.Lhs[0]) != v {
 			return true
@@ -635,9 +635,16 @@ func (fi *FuncInfo) errorHandled(call *ast.CallExpr, errIdx, nres int) (bool, st
 							}
 						}
 						if failing == nil {
-							// e.g. `if err == nil {…}` without else, or a type test on the error
+							// `if err == nil { …leave }` without else: the failing edge is what follows the if
 							for _, g := range flatten(q.Cond, true, q) {
 								if x, isNil, ok := fi.nilTest(g); ok && fi.varOf(x) == v && !isNil {
+									if terminates(q.Body) {
+										for _, u2 := range fi.usesOf(v) {
+											if u2.Pos() > q.End() {
+												return true, "tested; the code after the success guard uses the error"
+											}
+										}
+									}
 									return false, "tested, but the failing edge has no code"
 								}
 							}
